@@ -95,6 +95,7 @@ def _norm_index(i, n):
 
 
 def run_case(case):
+    case = {k: v for k, v in case.items() if k != "_truth"}
     kind, subtype = case["kind"], case["subtype"]
     probes, sig = {}, {"kind": kind, "subtype": subtype}
     done = []
@@ -374,6 +375,29 @@ def _check(arr, mod, case, op, sig, probes, st, shape_arr=None):
             sig["quantity"] = name
             raise Bad(f"derived-differs@{name}", f"after {op}: {name} on the derived array "
                       f"{str(a)[:160]} != on a fresh array of the same elements {str(f)[:160]}")
+    # element-wise quantities must equal the *selection* of the source's quantities, i.e.
+    # depend on the element's own value only - not on its neighbours or its position.
+    # The per-element truth is the quantity of a one-element fresh array (cached per value).
+    truth = case.setdefault("_truth", {})
+    for j, v in enumerate(mod):
+        key = (repr(models.freeze(v)), tuple(st["box"]), st["p"])
+        if key not in truth:
+            one = gen.build_array(kind, [v], subtype)
+            truth[key] = _quant(one, st, shape_arr)
+        t = truth[key]
+        for name in ("bounds", "length", "area", "intersects_bounds", "hilbert_distance",
+                     "intersects_shape"):
+            if name not in qa or name not in t:
+                continue
+            tv, av = t[name], qa[name]
+            if (isinstance(tv, tuple) and tv and tv[0] == "exc") or \
+                    (isinstance(av, tuple) and av and av[0] == "exc"):
+                continue
+            if av[j] != tv[0]:
+                sig["quantity"] = name
+                raise Bad(f"neighbour-dependent@{name}",
+                          f"after {op}: {name} of element {j} ({str(v)[:80]}) is {av[j]} inside the "
+                          f"array but {tv[0]} for the same element on its own")
 
 
 def sample(case, res):
